@@ -128,7 +128,7 @@ def any_value(v):
         return zcmp.from_engine(v)
     if t == "q":
         return ("q", tuple(any_value(x) for x in v["v"]), v["p"], True)
-    d = {k: (json_freeze(x)) for k, x in v.items() if k not in ("sh",)}
+    d = {k: (json_freeze(x)) for k, x in v.items() if k not in ("sh", "p")}
     return ("x", json_freeze(d), v["p"])
 
 
